@@ -10,6 +10,7 @@ pub mod c06;
 pub mod c07;
 pub mod c08;
 pub mod c09;
+pub mod c10;
 pub mod c11;
 pub mod c12;
 pub mod c14;
@@ -29,6 +30,7 @@ pub fn run(id: &str, rep: &mut Report) -> bool {
         "C07" => c07::run(rep),
         "C08" => c08::run(rep),
         "C09" => c09::run(rep),
+        "C10" => c10::run(rep),
         "C11" => c11::run(rep),
         "C12" => c12::run(rep),
         "C14" => c14::run(rep),
@@ -53,6 +55,7 @@ pub fn replay(id: &str, v: &Value) -> i32 {
         "C07" => c07::replay(w),
         "C08" => c08::replay(w),
         "C09" => c09::replay(w),
+        "C10" => c10::replay(w),
         "C11" => c11::replay(w),
         "C12" => c12::replay(w),
         "C14" => c14::replay(w),
